@@ -1,13 +1,1012 @@
-//! C18 — stub (to be implemented).
-use crate::engine::*;
-use serde_json::Value as J;
+//! C18 — sandbox: one reply per request, recovery after any failure.
+//!
+//! Every scenario (a sequence of requests with gaps) is executed in a fresh
+//! `rv-sbx drive` process (one `Sandbox` per process is all async-ctrlc allows),
+//! `cx.threads` of them in parallel. The driver prints one JSON line per
+//! `Sandbox::execute` call; `judge` compares line i with what request i alone
+//! determines.
 
-pub fn run(_cx: &Cx) -> Report {
-    let mut rep = Report::new("not implemented");
-    rep.inconclusive = Some("not implemented".into());
+use crate::engine::*;
+use proptest::prelude::*;
+use serde_derive::{Deserialize, Serialize};
+use serde_json::{json, Value as J};
+use std::cell::Cell;
+use std::collections::BTreeSet;
+use std::io::{Read, Write};
+use std::path::{Path, PathBuf};
+use std::time::{Duration, Instant};
+
+pub const RULE: &str = "case = one sequence of requests (kind, parameters, gap before it) sent through one Sandbox \
+in a fresh driver process; kinds = {normal (add / short sleep / small allocation), panic, overrun of the time limit, \
+allocation beyond the memory limit, child exit, large payload}. Exhaustive phase = every sequence of the stated \
+lengths over the 6 kinds with canonical parameters and gap 0; random phase = sequences of length 4..6 with random \
+parameters and gaps in {0, 50, 300} ms. Non-trivial = distinct sequence that contains a fault (panic, overrun, \
+over-limit allocation, exit) which is not the last request, i.e. at least one request has to be served after a failure.";
+
+pub const LIMIT_BYTES: u64 = 50 << 20;
+pub const TIMEOUT_MS: u64 = 1000;
+/// largest payload (each way) used by the generators
+pub const LARGE_MAX: u64 = 4 << 20;
+pub const SIG_F20: &str = "request-after-panic-not-served";
+
+// ---------------------------------------------------------------------------
+// Types shared with the `rv-sbx` binary
+// ---------------------------------------------------------------------------
+
+#[derive(Serialize, Deserialize, Clone, Debug, PartialEq, Eq, Hash)]
+pub enum Kind {
+    Add { a: i64, b: i64 },
+    Panic { msg: String },
+    Sleep { ms: u64 },
+    Alloc { bytes: u64 },
+    Exit { code: i32 },
+    Large { n: u64 },
+}
+
+#[derive(Serialize, Deserialize, Clone, Debug, PartialEq, Eq, Hash)]
+pub struct Req {
+    pub id: u64,
+    pub kind: Kind,
+}
+
+#[derive(Serialize, Deserialize, Clone, Debug, PartialEq, Eq, Hash)]
+pub struct Step {
+    pub req: Req,
+    pub gap_ms: u64,
+}
+
+#[derive(Serialize, Deserialize, Clone, Debug, PartialEq, Eq, Hash)]
+pub struct Scenario {
+    pub limit_bytes: u64,
+    pub timeout_ms: u64,
+    pub steps: Vec<Step>,
+}
+
+/// `Service::Config`
+#[derive(Serialize, Deserialize, Clone, Debug)]
+pub struct SvcConfig {
+    pub limit_bytes: u64,
+    pub timeout_ms: u64,
+}
+
+/// `Service::Req` (bincode over the pipe)
+#[derive(Serialize, Deserialize, Clone, Debug)]
+pub struct WireReq {
+    pub id: u64,
+    pub kind: Kind,
+    pub payload: Vec<u8>,
+}
+
+/// `Service::Res`
+#[derive(Serialize, Deserialize, Clone, Debug)]
+pub struct WireRes {
+    pub echo_id: u64,
+    pub pid: u32,
+    pub born_ns: u64,
+    pub value: u64,
+    pub payload: Vec<u8>,
+}
+
+/// One line of driver output = what one `execute` call returned.
+#[derive(Serialize, Deserialize, Clone, Debug)]
+pub struct Obs {
+    pub i: usize,
+    /// "ok" | "panic" | "timeout" | "crashed" | "other:<Display>" | "no-reply"
+    pub outcome: String,
+    pub detail: Option<String>,
+    pub value: Option<u64>,
+    pub echo_id: Option<u64>,
+    pub child_pid: Option<u32>,
+    pub born_ns: Option<u64>,
+    pub resp_len: Option<u64>,
+    pub resp_sum: Option<u64>,
+    pub memory_used: Option<u64>,
+    pub elapsed_ms: u64,
+}
+
+pub fn fnv64(bytes: &[u8]) -> u64 {
+    let mut h: u64 = 0xcbf29ce484222325;
+    for b in bytes {
+        h ^= *b as u64;
+        h = h.wrapping_mul(0x100000001b3);
+    }
+    h
+}
+
+/// payload of a Large request: a function of (id, n) only
+pub fn payload_for(id: u64, n: u64) -> Vec<u8> {
+    let mut v = Vec::with_capacity(n as usize);
+    let mut x = id.wrapping_mul(0x9E3779B97F4A7C15) ^ n;
+    for i in 0..n {
+        x ^= x << 13;
+        x ^= x >> 7;
+        x ^= x << 17;
+        v.push((x as u8) ^ (i as u8));
+    }
+    v
+}
+
+// ---------------------------------------------------------------------------
+// What request i alone determines
+// ---------------------------------------------------------------------------
+
+#[derive(Clone, Debug, PartialEq)]
+pub enum Expect {
+    Ok { value: u64, resp_len: u64, resp_sum: u64 },
+    Panic { msg: String },
+    Timeout,
+    Crashed,
+}
+
+impl Expect {
+    fn name(&self) -> &'static str {
+        match self {
+            Expect::Ok { .. } => "ok",
+            Expect::Panic { .. } => "panic",
+            Expect::Timeout => "timeout",
+            Expect::Crashed => "crashed",
+        }
+    }
+}
+
+/// Err = the request is too close to a limit to have a load-independent answer.
+pub fn expect(req: &Req, sc: &Scenario) -> Result<Expect, String> {
+    let empty = fnv64(&[]);
+    Ok(match &req.kind {
+        Kind::Add { a, b } => Expect::Ok {
+            value: a.wrapping_add(*b) as u64,
+            resp_len: 0,
+            resp_sum: empty,
+        },
+        Kind::Panic { msg } => Expect::Panic { msg: msg.clone() },
+        Kind::Sleep { ms } => {
+            if *ms * 4 <= sc.timeout_ms {
+                Expect::Ok {
+                    value: *ms,
+                    resp_len: 0,
+                    resp_sum: empty,
+                }
+            } else if *ms >= sc.timeout_ms * 3 {
+                Expect::Timeout
+            } else {
+                return Err(format!("Sleep {} ms is too close to the {} ms limit", ms, sc.timeout_ms));
+            }
+        }
+        Kind::Alloc { bytes } => {
+            if *bytes * 8 <= sc.limit_bytes {
+                Expect::Ok {
+                    value: *bytes,
+                    resp_len: 0,
+                    resp_sum: empty,
+                }
+            } else if *bytes >= sc.limit_bytes.saturating_mul(4) && *bytes <= (1 << 40) {
+                Expect::Crashed
+            } else {
+                return Err(format!("Alloc {} is too close to the {} byte limit", bytes, sc.limit_bytes));
+            }
+        }
+        Kind::Exit { .. } => Expect::Crashed,
+        Kind::Large { n } => {
+            if *n * 12 > sc.limit_bytes {
+                return Err(format!("Large {} is too close to the {} byte limit", n, sc.limit_bytes));
+            }
+            let p = payload_for(req.id, *n);
+            let sum = fnv64(&p);
+            let mut back = p;
+            back.reverse();
+            Expect::Ok {
+                value: sum,
+                resp_len: *n,
+                resp_sum: fnv64(&back),
+            }
+        }
+    })
+}
+
+/// class of a request for the evidence: normal | panic | overrun | overalloc | exit | large
+pub fn class_of(req: &Req, sc: &Scenario) -> &'static str {
+    match (&req.kind, expect(req, sc)) {
+        (Kind::Panic { .. }, _) => "panic",
+        (Kind::Exit { .. }, _) => "exit",
+        (Kind::Large { .. }, _) => "large",
+        (Kind::Sleep { .. }, Ok(Expect::Timeout)) => "overrun",
+        (Kind::Alloc { .. }, Ok(Expect::Crashed)) => "overalloc",
+        _ => "normal",
+    }
+}
+
+fn is_fault(class: &str) -> bool {
+    matches!(class, "panic" | "overrun" | "overalloc" | "exit")
+}
+
+/// cost of a request for the wall-clock budget of the driver (ms)
+fn cost_ms(req: &Req, sc: &Scenario) -> u64 {
+    match &req.kind {
+        Kind::Sleep { ms } => (*ms).min(sc.timeout_ms),
+        _ => 0,
+    }
+}
+
+// ---------------------------------------------------------------------------
+// Oracle
+// ---------------------------------------------------------------------------
+
+#[derive(Clone, Debug, PartialEq)]
+pub enum Verdict {
+    Pass,
+    /// (signature, detail, may be caused by machine load => re-run before reporting)
+    Violation(String, String, bool),
+    Inconclusive(String),
+}
+
+#[derive(Clone, Debug)]
+pub struct Judged {
+    pub verdict: Verdict,
+    /// known findings met: (signature, example)
+    pub known: Vec<(String, String)>,
+    pub restarts: u64,
+    pub reused: u64,
+    pub served_after_fault: u64,
+    /// F-20, shape 1: one request lost (Crashed), child restarted afterwards
+    pub lost_then_recovered: u64,
+    /// F-20, shape 2: the parent task ended; every later request lost
+    pub sandbox_dead: bool,
+}
+
+fn short(s: &str) -> String {
+    let s: String = s.chars().filter(|c| !c.is_control() || *c == ' ').collect();
+    if s.chars().count() > 300 {
+        let head: String = s.chars().take(300).collect();
+        format!("{}…", head)
+    } else {
+        s
+    }
+}
+
+fn describe(sc: &Scenario) -> String {
+    let parts: Vec<String> = sc
+        .steps
+        .iter()
+        .map(|s| {
+            let k = match &s.req.kind {
+                Kind::Add { .. } => "Add".to_string(),
+                Kind::Panic { .. } => "Panic".to_string(),
+                Kind::Sleep { ms } => format!("Sleep({}ms)", ms),
+                Kind::Alloc { bytes } => format!("Alloc({})", bytes),
+                Kind::Exit { code } => format!("Exit({})", code),
+                Kind::Large { n } => format!("Large({})", n),
+            };
+            if s.gap_ms > 0 {
+                format!("+{}ms {}", s.gap_ms, k)
+            } else {
+                k
+            }
+        })
+        .collect();
+    parts.join(", ")
+}
+
+/// Compare one observation with the expectation; Some((sig, why)) on mismatch.
+fn mismatch(exp: &Expect, req: &Req, o: &Obs, sc: &Scenario) -> Option<(String, String)> {
+    let got = if o.outcome.starts_with("other:") { "other" } else { o.outcome.as_str() };
+    match exp {
+        Expect::Ok { value, resp_len, resp_sum } => {
+            if o.outcome != "ok" {
+                return Some((
+                    format!("ok-expected-got-{}", got),
+                    format!("expected its own result, got `{}` {}", o.outcome, short(o.detail.as_deref().unwrap_or(""))),
+                ));
+            }
+            if o.echo_id != Some(req.id) {
+                return Some((
+                    "stale-reply".into(),
+                    format!("reply carries id {:?}, the request's id is {} (a reply of another request was delivered)", o.echo_id, req.id),
+                ));
+            }
+            if o.value != Some(*value) {
+                return Some(("wrong-value".into(), format!("value {:?}, expected {}", o.value, value)));
+            }
+            if o.resp_len != Some(*resp_len) || o.resp_sum != Some(*resp_sum) {
+                return Some((
+                    "wrong-payload".into(),
+                    format!("payload len/sum {:?}/{:?}, expected {}/{}", o.resp_len, o.resp_sum, resp_len, resp_sum),
+                ));
+            }
+            None
+        }
+        Expect::Panic { msg } => {
+            if o.outcome != "panic" {
+                return Some((
+                    format!("panic-expected-got-{}", got),
+                    format!("expected Err(Panic), got `{}` {}", o.outcome, short(o.detail.as_deref().unwrap_or(""))),
+                ));
+            }
+            if !o.detail.as_deref().unwrap_or("").contains(msg.as_str()) {
+                return Some((
+                    "panic-message-lost".into(),
+                    format!("panic report does not contain `{}`: {}", msg, short(o.detail.as_deref().unwrap_or(""))),
+                ));
+            }
+            None
+        }
+        Expect::Timeout => {
+            if o.outcome != "timeout" {
+                return Some((
+                    format!("timeout-expected-got-{}", got),
+                    format!("expected Err(Timeout), got `{}` {}", o.outcome, short(o.detail.as_deref().unwrap_or(""))),
+                ));
+            }
+            if o.elapsed_ms < sc.timeout_ms {
+                return Some((
+                    "timeout-too-early".into(),
+                    format!("Timeout reported after {} ms, the limit is {} ms", o.elapsed_ms, sc.timeout_ms),
+                ));
+            }
+            None
+        }
+        Expect::Crashed => {
+            if o.outcome != "crashed" {
+                return Some((
+                    format!("crashed-expected-got-{}", got),
+                    format!("expected Err(Crashed), got `{}` {}", o.outcome, short(o.detail.as_deref().unwrap_or(""))),
+                ));
+            }
+            None
+        }
+    }
+}
+
+/// `complete` = the driver ended by itself (all output is there).
+pub fn judge(sc: &Scenario, obs: &[Obs], complete: bool, known: &BTreeSet<String>) -> Judged {
+    let mut j = Judged {
+        verdict: Verdict::Pass,
+        known: vec![],
+        restarts: 0,
+        reused: 0,
+        served_after_fault: 0,
+        lost_then_recovered: 0,
+        sandbox_dead: false,
+    };
+    let text = describe(sc);
+    // F-20 bookkeeping: the previous request was answered Err(Panic) (so its child has exited)
+    let mut prev_panicked = false;
+    // F-20 took the parent's task down on the write: nothing can be served any more
+    let mut task_dead = false;
+    let mut last_inc: Option<(u32, u64)> = None;
+    let mut must_restart: Option<usize> = None;
+    let mut fault_seen = false;
+    for (i, step) in sc.steps.iter().enumerate() {
+        let o = match obs.get(i) {
+            Some(o) => o,
+            None => {
+                j.verdict = if complete {
+                    Verdict::Violation(
+                        "missing-reply".into(),
+                        format!("[{}] request #{} got no result line although the driver ended normally", text, i),
+                        false,
+                    )
+                } else {
+                    Verdict::Inconclusive(format!("driver stopped by the watchdog after {} of {} replies", obs.len(), sc.steps.len()))
+                };
+                return j;
+            }
+        };
+        if o.i != i {
+            j.verdict = Verdict::Violation("reply-order".into(), format!("[{}] line {} carries index {}", text, i, o.i), false);
+            return j;
+        }
+        let exp = match expect(&step.req, sc) {
+            Ok(e) => e,
+            Err(why) => {
+                j.verdict = Verdict::Inconclusive(format!("scenario not judgeable: {}", why));
+                return j;
+            }
+        };
+        let after_panic = prev_panicked;
+        prev_panicked = o.outcome == "panic";
+        match mismatch(&exp, &step.req, o, sc) {
+            None => {
+                if o.outcome == "ok" {
+                    let inc = (o.child_pid.unwrap_or(0), o.born_ns.unwrap_or(0));
+                    if let Some(prev) = last_inc {
+                        if prev == inc {
+                            j.reused += 1;
+                            if let Some(f) = must_restart {
+                                j.verdict = Verdict::Violation(
+                                    "no-restart-after-fault".into(),
+                                    format!(
+                                        "[{}] request #{} was served by the same child (pid {}) that served before request #{} timed out / crashed",
+                                        text, i, inc.0, f
+                                    ),
+                                    false,
+                                );
+                                return j;
+                            }
+                        } else {
+                            j.restarts += 1;
+                        }
+                    }
+                    last_inc = Some(inc);
+                    must_restart = None;
+                    if fault_seen {
+                        j.served_after_fault += 1;
+                    }
+                } else {
+                    fault_seen = true;
+                    if o.outcome == "timeout" || o.outcome == "crashed" {
+                        must_restart = Some(i);
+                    }
+                }
+            }
+            Some((sig, why)) => {
+                // F-20: the child exits after reporting a panic but the parent keeps it. The next
+                // request is either answered Err(Crashed) (the write still went through; the child is
+                // then restarted), or the write fails, the parent's task ends (`?`) and this and every
+                // later execute() fails on the closed channels.
+                let chan = o.outcome.starts_with("other:")
+                    && (o.outcome.contains("closed channel") || o.outcome.contains("Failed to send"));
+                let lost = o.outcome == "crashed" || chan || o.outcome == "no-reply";
+                if (after_panic && lost) || (task_dead && chan) {
+                    let detail = format!(
+                        "[{}] request #{} (expected {}) follows a request answered Err(Panic) and got `{}`{}",
+                        text,
+                        i,
+                        exp.name(),
+                        short(&o.outcome),
+                        if task_dead { " (the parent task already ended on the write to the dead child)" } else { "" }
+                    );
+                    if known.contains(SIG_F20) {
+                        if !task_dead {
+                            j.known.push((SIG_F20.to_string(), text.clone()));
+                        }
+                        fault_seen = true;
+                        if chan {
+                            if !task_dead {
+                                j.sandbox_dead = true;
+                            }
+                            task_dead = true;
+                        } else if o.outcome == "crashed" {
+                            j.lost_then_recovered += 1;
+                            must_restart = Some(i);
+                        } else {
+                            // no-reply: the driver stops after it
+                            return j;
+                        }
+                        continue;
+                    }
+                    j.verdict = Verdict::Violation(SIG_F20.into(), detail, false);
+                    return j;
+                }
+                let loadish = (matches!(exp, Expect::Ok { .. }) && o.outcome == "timeout") || o.outcome == "no-reply";
+                j.verdict = Verdict::Violation(
+                    sig,
+                    format!("[{}] request #{} ({:?}): {}", text, i, step.req.kind_name(), why),
+                    loadish,
+                );
+                return j;
+            }
+        }
+    }
+    if obs.len() > sc.steps.len() {
+        j.verdict = Verdict::Violation(
+            "extra-reply".into(),
+            format!("[{}] {} result lines for {} requests", text, obs.len(), sc.steps.len()),
+            false,
+        );
+    }
+    j
+}
+
+impl Req {
+    fn kind_name(&self) -> &'static str {
+        match self.kind {
+            Kind::Add { .. } => "Add",
+            Kind::Panic { .. } => "Panic",
+            Kind::Sleep { .. } => "Sleep",
+            Kind::Alloc { .. } => "Alloc",
+            Kind::Exit { .. } => "Exit",
+            Kind::Large { .. } => "Large",
+        }
+    }
+}
+
+// ---------------------------------------------------------------------------
+// Running one scenario in a driver process
+// ---------------------------------------------------------------------------
+
+pub struct DriverRun {
+    pub obs: Vec<Obs>,
+    /// the driver ended by itself with exit code 0
+    pub complete: bool,
+    /// None = fine; Some = infrastructure trouble (spawn failed, bad exit code, garbage output)
+    pub trouble: Option<String>,
+    /// the driver process itself died (exit code 101 / signal) although nobody killed it
+    pub died: Option<String>,
+    pub stderr_tail: String,
+    pub wall_ms: u64,
+}
+
+pub fn sbx_path() -> Result<PathBuf, String> {
+    let exe = std::env::current_exe().map_err(|e| format!("current_exe: {}", e))?;
+    let dir = exe.parent().ok_or("current_exe has no parent")?;
+    let p = dir.join("rv-sbx");
+    if p.is_file() {
+        Ok(p)
+    } else {
+        Err(format!("{} not found (build the harness: it must sit next to rv)", p.display()))
+    }
+}
+
+pub fn budget(sc: &Scenario) -> Duration {
+    let mut ms = 60_000u64;
+    for s in &sc.steps {
+        ms += s.gap_ms + cost_ms(&s.req, sc);
+    }
+    Duration::from_millis(ms)
+}
+
+pub fn run_driver(sbx: &Path, sc: &Scenario) -> DriverRun {
+    use std::os::unix::process::CommandExt;
+    use std::process::{Command, Stdio};
+    let t0 = Instant::now();
+    let mut run = DriverRun {
+        obs: vec![],
+        complete: false,
+        trouble: None,
+        died: None,
+        stderr_tail: String::new(),
+        wall_ms: 0,
+    };
+    let mut cmd = Command::new(sbx);
+    cmd.arg("drive")
+        .env("RUST_BACKTRACE", "0")
+        .env_remove("RUST_LIB_BACKTRACE")
+        .stdin(Stdio::piped())
+        .stdout(Stdio::piped())
+        .stderr(Stdio::piped())
+        .process_group(0);
+    let mut child = match cmd.spawn() {
+        Ok(c) => c,
+        Err(e) => {
+            run.trouble = Some(format!("cannot start {}: {}", sbx.display(), e));
+            return run;
+        }
+    };
+    let pid = child.id() as libc::pid_t;
+    {
+        let mut stdin = child.stdin.take().unwrap();
+        let _ = stdin.write_all(serde_json::to_string(sc).unwrap().as_bytes());
+    }
+    let mut stdout = child.stdout.take().unwrap();
+    let mut stderr = child.stderr.take().unwrap();
+    let (tx, rx) = std::sync::mpsc::channel::<Vec<u8>>();
+    let h_out = std::thread::spawn(move || {
+        let mut buf = vec![];
+        let _ = stdout.read_to_end(&mut buf);
+        let _ = tx.send(buf);
+    });
+    let h_err = std::thread::spawn(move || {
+        // keep the last 8 KiB, drain everything
+        let mut keep: Vec<u8> = vec![];
+        let mut buf = [0u8; 4096];
+        loop {
+            match stderr.read(&mut buf) {
+                Ok(0) | Err(_) => break,
+                Ok(n) => {
+                    keep.extend_from_slice(&buf[..n]);
+                    if keep.len() > 16384 {
+                        let cut = keep.len() - 8192;
+                        keep.drain(..cut);
+                    }
+                }
+            }
+        }
+        keep
+    });
+    // stdout reaches EOF exactly when the driver is gone (its children get their own pipes)
+    let (bytes, in_time) = match rx.recv_timeout(budget(sc)) {
+        Ok(b) => (b, true),
+        Err(_) => (vec![], false),
+    };
+    let mut self_ended = false;
+    if in_time {
+        // wait (without reaping, so the pid stays reserved) until it is really gone
+        let until = Instant::now() + Duration::from_secs(10);
+        loop {
+            let mut info: libc::siginfo_t = unsafe { std::mem::zeroed() };
+            let rc = unsafe { libc::waitid(libc::P_PID, pid as libc::id_t, &mut info, libc::WEXITED | libc::WNOHANG | libc::WNOWAIT) };
+            let gone = rc == 0 && unsafe { info.si_pid() } == pid;
+            if gone || rc != 0 {
+                self_ended = true;
+                break;
+            }
+            if Instant::now() > until {
+                break;
+            }
+            std::thread::sleep(Duration::from_millis(1));
+        }
+    }
+    // remove whatever is left of the driver and its sandbox children
+    unsafe {
+        libc::kill(-pid, libc::SIGKILL);
+    }
+    let status = child.wait();
+    let bytes = if in_time { bytes } else { rx.recv().unwrap_or_default() };
+    let _ = h_out.join();
+    let err = h_err.join().unwrap_or_default();
+    run.stderr_tail = String::from_utf8_lossy(&err).to_string();
+    for line in String::from_utf8_lossy(&bytes).lines() {
+        if line.trim().is_empty() {
+            continue;
+        }
+        match serde_json::from_str::<Obs>(line) {
+            Ok(o) => run.obs.push(o),
+            Err(e) => {
+                run.trouble = Some(format!("unparsable driver output `{}`: {}", short(line), e));
+                break;
+            }
+        }
+    }
+    if self_ended {
+        match status {
+            Ok(st) => {
+                use std::os::unix::process::ExitStatusExt;
+                match (st.code(), st.signal()) {
+                    (Some(0), _) => run.complete = true,
+                    (Some(c), _) if c == 3 || c == 4 => {
+                        run.trouble = Some(format!("driver setup failed (exit {}): {}", c, short(&run.stderr_tail)));
+                    }
+                    (c, s) => {
+                        run.died = Some(format!(
+                            "driver process ended with code {:?} signal {:?}; stderr: {}",
+                            c,
+                            s,
+                            short(&run.stderr_tail)
+                        ));
+                    }
+                }
+            }
+            Err(e) => run.trouble = Some(format!("wait: {}", e)),
+        }
+    }
+    run.wall_ms = t0.elapsed().as_millis() as u64;
+    run
+}
+
+// ---------------------------------------------------------------------------
+// Checking one scenario (with re-runs for load-sensitive observations)
+// ---------------------------------------------------------------------------
+
+pub struct Env {
+    pub sbx: PathBuf,
+    pub known: BTreeSet<String>,
+    /// process runs still allowed while proptest shrinks a failure
+    pub shrink_budget: Cell<u32>,
+}
+
+pub fn mk_env(known: BTreeSet<String>) -> Env {
+    Env {
+        sbx: sbx_path().unwrap_or_else(|_| PathBuf::from("rv-sbx")),
+        known,
+        shrink_budget: Cell::new(48),
+    }
+}
+
+const ATTEMPTS: usize = 3;
+
+fn fail(sig: &str, detail: &str) -> CaseResult {
+    Err(format!("[{}] {}", sig, detail))
+}
+
+pub fn check_scenario(env: &Env, sc: &Scenario, st: &mut Stats) -> CaseResult {
+    if st.frozen {
+        // proptest is shrinking: every candidate costs a process and up to seconds
+        let left = env.shrink_budget.get();
+        if left == 0 {
+            return Ok(());
+        }
+        env.shrink_budget.set(left - 1);
+    }
+    let key = serde_json::to_string(sc).unwrap();
+    // judgeable at all?
+    for s in &sc.steps {
+        if let Err(why) = expect(&s.req, sc) {
+            st.excluded(&format!("not run: {}", why.split(" is ").next().unwrap_or("request").split(' ').next().unwrap_or("request")));
+            return Ok(());
+        }
+    }
+    st.eval();
+    let classes: Vec<&'static str> = sc.steps.iter().map(|s| class_of(&s.req, sc)).collect();
+    let n = classes.len();
+    let mut nontrivial = false;
+    for (i, c) in classes.iter().enumerate() {
+        st.class(&format!("{}_at_pos{}", c, i));
+        if is_fault(c) && i + 1 < n {
+            nontrivial = true;
+            st.class(&format!("{}_followed_by_requests", c));
+        }
+    }
+    st.class(&format!("sequence_len_{}", n));
+    if sc.steps.iter().any(|s| s.gap_ms > 0) {
+        st.class("has_nonzero_gap");
+    }
+    if nontrivial {
+        st.nontrivial(&key);
+        st.nt_sample(|| json!(describe(sc)));
+    } else {
+        st.sample(|| json!(describe(sc)));
+    }
+
+    let mut loadish: Vec<(String, String)> = vec![];
+    let mut last_reason = String::new();
+    for _attempt in 0..ATTEMPTS {
+        let run = run_driver(&env.sbx, sc);
+        if let Some(t) = &run.trouble {
+            last_reason = t.clone();
+            st.class("attempt_infrastructure_trouble");
+            continue;
+        }
+        let j = judge(sc, &run.obs, run.complete, &env.known);
+        // a violation pinned by the lines we have outranks the way the driver ended
+        match &j.verdict {
+            Verdict::Violation(sig, detail, false) => return fail(sig, detail),
+            Verdict::Violation(sig, detail, true) => {
+                st.class("attempt_load_sensitive_deviation");
+                loadish.push((sig.clone(), detail.clone()));
+                last_reason = format!("[{}] {}", sig, detail);
+                continue;
+            }
+            Verdict::Inconclusive(why) => {
+                if let Some(d) = &run.died {
+                    // the process hosting the Sandbox died by itself: nothing after that got a reply
+                    return fail("driver-died", &format!("[{}] after {} replies: {}", describe(sc), run.obs.len(), d));
+                }
+                last_reason = why.clone();
+                st.class("attempt_watchdog");
+                continue;
+            }
+            Verdict::Pass => {
+                if let Some(d) = &run.died {
+                    return fail("driver-died", &format!("[{}] after {} replies: {}", describe(sc), run.obs.len(), d));
+                }
+                if !run.complete {
+                    last_reason = "driver stopped by the watchdog".into();
+                    st.class("attempt_watchdog");
+                    continue;
+                }
+                if !loadish.is_empty() {
+                    st.class("load_sensitive_deviation_not_reproduced");
+                }
+                for (sig, ex) in &j.known {
+                    st.known(sig, ex);
+                    st.class(&format!("known_{}", sig));
+                }
+                st.class_n("f20_one_request_lost_then_child_restarted", j.lost_then_recovered);
+                if j.sandbox_dead {
+                    st.class("f20_parent_task_ended_all_later_requests_lost");
+                }
+                st.class_n("restarts_observed", j.restarts);
+                st.class_n("same_child_served_consecutive_requests", j.reused);
+                st.class_n("requests_served_after_a_fault", j.served_after_fault);
+                return Ok(());
+            }
+        }
+    }
+    if loadish.len() == ATTEMPTS && loadish.iter().all(|(s, _)| *s == loadish[0].0) {
+        // the same deviation in every run of the scenario: not noise
+        return fail(&loadish[0].0, &format!("{} (reproduced in {} consecutive runs)", loadish[0].1, ATTEMPTS));
+    }
+    st.class("scenarios_inconclusive");
+    st.note("inconclusive_example", json!(format!("{}: {}", describe(sc), short(&last_reason))));
+    Ok(())
+}
+
+// ---------------------------------------------------------------------------
+// Generators
+// ---------------------------------------------------------------------------
+
+#[derive(Clone, Copy, Debug, PartialEq, Eq)]
+pub enum Sym {
+    Normal,
+    Panic,
+    Overrun,
+    OverAlloc,
+    Exit,
+    Large,
+}
+
+pub const SYMS: [Sym; 6] = [Sym::Normal, Sym::Panic, Sym::Overrun, Sym::OverAlloc, Sym::Exit, Sym::Large];
+
+impl Sym {
+    fn fault(self) -> bool {
+        matches!(self, Sym::Panic | Sym::Overrun | Sym::OverAlloc | Sym::Exit)
+    }
+}
+
+/// canonical request for a symbol at position i
+pub fn canon(sym: Sym, i: usize) -> Req {
+    let id = 7001 + 13 * i as u64;
+    let kind = match sym {
+        Sym::Normal => Kind::Add { a: 40 + i as i64, b: 2 },
+        Sym::Panic => Kind::Panic { msg: format!("boom-{}", id) },
+        Sym::Overrun => Kind::Sleep { ms: 3 * TIMEOUT_MS },
+        Sym::OverAlloc => Kind::Alloc { bytes: 4 * LIMIT_BYTES },
+        Sym::Exit => Kind::Exit { code: 3 },
+        Sym::Large => Kind::Large { n: 1 << 20 },
+    };
+    Req { id, kind }
+}
+
+pub fn scenario_of(syms: &[Sym]) -> Scenario {
+    Scenario {
+        limit_bytes: LIMIT_BYTES,
+        timeout_ms: TIMEOUT_MS,
+        steps: syms
+            .iter()
+            .enumerate()
+            .map(|(i, s)| Step { req: canon(*s, i), gap_ms: 0 })
+            .collect(),
+    }
+}
+
+/// all sequences of exactly `len` symbols
+fn all_of_len(len: usize) -> Vec<Vec<Sym>> {
+    let mut out: Vec<Vec<Sym>> = vec![vec![]];
+    for _ in 0..len {
+        let mut next = vec![];
+        for p in &out {
+            for s in SYMS {
+                let mut q = p.clone();
+                q.push(s);
+                next.push(q);
+            }
+        }
+        out = next;
+    }
+    out
+}
+
+/// (scenarios, exhaustive up to length). Measured: the 258 sequences of length <= 3 take
+/// ~15 s on 16 threads, so both tiers enumerate them all.
+pub fn enumerate(_tier: Tier) -> (Vec<Scenario>, usize) {
+    let mut seqs: Vec<Vec<Sym>> = vec![];
+    for len in 1..=3 {
+        seqs.extend(all_of_len(len));
+    }
+    (seqs.iter().map(|s| scenario_of(s)).collect(), 3)
+}
+
+fn kind_strategy() -> impl Strategy<Value = Kind> {
+    let msgs = prop::sample::select(vec!["boom", "kaboom: index out of range", "called `Option::unwrap()` on a `None` value"]);
+    prop_oneof![
+        3 => (any::<i64>(), any::<i64>()).prop_map(|(a, b)| Kind::Add { a, b }),
+        1 => (0u64..=50).prop_map(|ms| Kind::Sleep { ms }),
+        1 => (0u64..=(1 << 20)).prop_map(|bytes| Kind::Alloc { bytes }),
+        2 => prop_oneof![0u64..=4096, 0u64..=LARGE_MAX].prop_map(|n| Kind::Large { n }),
+        2 => msgs.prop_map(|m| Kind::Panic { msg: m.to_string() }),
+        2 => (3 * TIMEOUT_MS..=3 * TIMEOUT_MS + 500).prop_map(|ms| Kind::Sleep { ms }),
+        2 => prop_oneof![Just(4 * LIMIT_BYTES), 4 * LIMIT_BYTES..=(1u64 << 34)].prop_map(|bytes| Kind::Alloc { bytes }),
+        2 => prop::sample::select(vec![3, 0, 1, 101, 255]).prop_map(|code| Kind::Exit { code }),
+    ]
+}
+
+pub fn scenario_strategy(min: usize, max: usize) -> impl Strategy<Value = Scenario> {
+    let step = (kind_strategy(), prop::sample::select(vec![0u64, 50, 300]), any::<u32>());
+    prop::collection::vec(step, min..=max).prop_map(|v| Scenario {
+        limit_bytes: LIMIT_BYTES,
+        timeout_ms: TIMEOUT_MS,
+        steps: v
+            .into_iter()
+            .enumerate()
+            .map(|(i, (kind, gap_ms, salt))| {
+                // distinct ids within the scenario by construction
+                let id = ((salt as u64) << 8) | i as u64;
+                let kind = match kind {
+                    Kind::Panic { msg } => Kind::Panic { msg: format!("{} #{}", msg, id) },
+                    k => k,
+                };
+                Step { req: Req { id, kind }, gap_ms }
+            })
+            .collect(),
+    })
+}
+
+// ---------------------------------------------------------------------------
+
+pub fn run(cx: &Cx) -> Report {
+    let mut rep = Report::new(RULE);
+    rep.level = "fault_enumeration";
+    rep.assumptions = vec![
+        format!("test service: memory limit {} MiB, time limit {} ms; requests stay far from both limits (Sleep <= limit/4 or >= 3x limit; Alloc <= limit/8 or >= 4x limit; Large <= {} MiB each way)", LIMIT_BYTES >> 20, TIMEOUT_MS, LARGE_MAX >> 20),
+        "an over-limit allocation is refused by rink_sandbox::Alloc (null) and Rust's handle_alloc_error aborts the child: expected reply Err(Crashed)".into(),
+        "a child incarnation is identified by (pid, creation time in ns), so pid reuse cannot hide a restart".into(),
+        "a request expected to succeed that is answered Err(Timeout), or an execute() without any reply within 30 s, is reported only if it reproduces in 3 consecutive runs of the same scenario (machine load can legitimately cause the former)".into(),
+        "one Sandbox per driver process (async-ctrlc permits a single CtrlC); the interrupt path (Ctrl-C) is not exercised here".into(),
+    ];
+    let sbx = match sbx_path() {
+        Ok(p) => p,
+        Err(e) => {
+            rep.inconclusive = Some(e);
+            return rep;
+        }
+    };
+    rep.stats.note("driver", json!(sbx.display().to_string()));
+    let known = cx.known.clone();
+
+    crate::regress::run(cx, &mut rep, &replay);
+    rep.mark(cx, "regress");
+
+    // phase 1: enumeration
+    let (items, full_len) = enumerate(cx.tier);
+    let n_items = items.len();
+    let k1 = known.clone();
+    rep.absorb(par_sweep(
+        cx,
+        "exhaustive",
+        items,
+        move || mk_env(k1.clone()),
+        |env, sc, st| check_scenario(env, sc, st),
+        |sc| serde_json::to_value(sc).unwrap(),
+    ));
+    rep.mark(cx, "exhaustive");
+    rep.stats.note("enumerated_sequences", json!(n_items));
+    rep.stats.note(
+        "enumeration",
+        json!("all 6 + 36 + 216 sequences of length 1..3 over the 6 kinds, canonical parameters, gap 0"),
+    );
+    rep.stats.note("exhaustive_up_to_length", json!(full_len));
+    rep.exhaustive = true;
+    let inconcl_exh = rep.stats.classes.get("scenarios_inconclusive").copied().unwrap_or(0);
+
+    // phase 2: random sequences with gaps
+    let cases = cx.tier.pick(96u64, 3000);
+    let k2 = known.clone();
+    let (lo, hi) = cx.tier.pick((4usize, 5usize), (4, 6));
+    rep.absorb(par_proptest(
+        cx,
+        "random",
+        cases,
+        move || scenario_strategy(lo, hi),
+        move || mk_env(k2.clone()),
+        |env, sc, st| check_scenario(env, sc, st),
+        |sc| serde_json::to_value(sc).unwrap(),
+    ));
+    rep.mark(cx, "random");
+    rep.stats.note("random_sequences_requested", json!(cases));
+
+    let inconcl = rep.stats.classes.get("scenarios_inconclusive").copied().unwrap_or(0);
+    if inconcl_exh > 0 {
+        rep.exhaustive = false;
+        rep.inconclusive = Some(format!(
+            "{} enumerated scenario(s) could not be judged after {} attempts (watchdog / infrastructure): {}",
+            inconcl_exh,
+            ATTEMPTS,
+            rep.stats.notes.get("inconclusive_example").map(|j| j.to_string()).unwrap_or_default()
+        ));
+    } else if inconcl * 50 > rep.stats.evaluations.max(1) {
+        rep.inconclusive = Some(format!("{} of {} scenarios inconclusive (> 2%)", inconcl, rep.stats.evaluations));
+    }
+    if rep.stats.nontrivial.is_empty() && rep.violations.is_empty() {
+        rep.inconclusive = Some("no scenario with a fault followed by further requests was run".into());
+    }
     rep
 }
 
-pub fn replay(_cx: &Cx, _phase: &str, _case: &J, _st: &mut Stats) -> CaseResult {
-    Err("not implemented".into())
+pub fn replay(cx: &Cx, _phase: &str, case: &J, st: &mut Stats) -> CaseResult {
+    let sc: Scenario = serde_json::from_value(case.clone()).map_err(|e| format!("bad case: {}", e))?;
+    let env = mk_env(cx.known.clone());
+    if let Err(e) = sbx_path() {
+        println!("INCONCLUSIVE property=C18 {}", e);
+        std::process::exit(2);
+    }
+    let r = check_scenario(&env, &sc, st);
+    if r.is_ok() && (st.classes.contains_key("scenarios_inconclusive") || !st.excluded.is_empty()) {
+        println!(
+            "INCONCLUSIVE property=C18 replayed scenario could not be judged: {} {:?}",
+            st.notes.get("inconclusive_example").map(|j| j.to_string()).unwrap_or_default(),
+            st.excluded.keys().collect::<Vec<_>>()
+        );
+        std::process::exit(2);
+    }
+    r
 }
